@@ -64,7 +64,7 @@ claim("C18",
   "DESIGN.md §4 C18")
 claim("C19",
   "Lean 4 proof over models of the sequential and Blelloch scan wiring, the sliding/moving window block plans, ensure_minimum_chunksize and boundary/trim chunk rules + rename-invariant layer correspondence (exhaustive n<=8, 1..40 blocks) + search vs NumPy/bottleneck definitions",
-  "27 theorems for all inputs: both scans equal the global scan for every block count; the banded window decompositions tile exactly the window under the native guards with indices in range; output chunks; ensure_minimum_chunksize; boundary kinds equal np.pad index maps; overlap/trim chunk round trip; Props/C19Overlap (12): the chunked map_overlap pipeline (boundaries, overlap_internal, block function, trim) equals the global stencil g∘pad for every boundary kind, depth pair, window-local g and every chunking with chunks >= depth, in 1-D and n-D, hence is chunking-independent; the rechunk guard is established and necessary (decided witness).",
+  "41 theorems for all inputs: Props/C19Gradient (14): each block of da.gradient sees exactly coords[lo-(b>0) : hi+(b<last)] and the values at those positions for every ragged chunking, the chunked gradient equals the kernel on the whole axis for every edge-local kernel (np.gradient edge_order 1 and 2 over Q belong to the class) whenever the code's own chunk guard passes, diff of order n is the n-fold first difference of prepend ++ a ++ append; both scans equal the global scan for every block count; the banded window decompositions tile exactly the window under the native guards with indices in range; output chunks; ensure_minimum_chunksize; boundary kinds equal np.pad index maps; overlap/trim chunk round trip; Props/C19Overlap (12): the chunked map_overlap pipeline (boundaries, overlap_internal, block function, trim) equals the global stencil g∘pad for every boundary kind, depth pair, window-local g and every chunking with chunks >= depth, in 1-D and n-D, hence is chunking-independent; the rechunk guard is established and necessary (decided witness).",
   TB + "new_axis/drop_axis/trim=False/several inputs of map_overlap, min_count/NaN masking, diff/gradient and floats are correspondence/search only.",
   "DESIGN.md §4 C19")
 claim("C24",
@@ -151,8 +151,8 @@ claim("C29",
   "DESIGN.md §4 C29")
 
 claim("C02",
-  "Lean 4 soundness theorems for 22 rewrite rules on the expression mini-language, the block-id assignment of blockwise fusion, chunk unification at lowering, the gates of the generic Blockwise slice/take pushdown, the coarse (adjust_chunks) slice pushdown and the slice rule of map_overlap (98 theorems) + congruence/fixpoint theorems (optimize sound for any rule sequence) + correspondence: every traced real rewrite (before/after objects exported) must be den-equal for the model (ru.equiv), instances of proved rules counted + real-code search (4 phase forms vs NumPy, fused vs lowered blocks, every fired rewrite computed on both sides, rule-directed chains, sliding-window kernel substitution)",
-  "C02_rule_sound_<rule> for slice-slice fusion, identity-slice removal, slice through elemwise/transpose/expand_dims/squeeze/reductions/concatenate, rechunk no-op / rechunk-rechunk / through elemwise, transpose, expand_dims / into a source; C02_step_sound, C02_any_sequence, C02_optimize_sound and C02_optimize_compute (with C01) for every well-formed expression. Extensions audited by the same check: slice through broadcast_to, rechunk through concatenate, rechunk-slice composition (Props/C02Ext); fusion: under WF, Ordered, Accepted (model of _remove_conflicting_exprs) and ValidBlock every member gets the block id reached along every path and the fused task reads exactly what the unfused graph reads (C02_fuse_block_ids, Props/C02Fusion); chunk unification at lowering is well-formed, denotes the pointwise op and computes it (C02l_*, Props/C02Lower). the generic Blockwise slice/take pushdown is sound for label-local block functions whenever its gate fires, each gate is necessary (C02g_push_sound, C02g_gate_necessary_*, Props/C02Gate); the coarse adjust_chunks path keeps exactly the blocks meeting the slice and the rewritten node denotes the slice of the original for every block-to-block function (C02c_accept_sound, C02c_findBlockRange_spec, C02c_operand_axis_gates, Props/C02Coarse; chunks: C03c_*, Props/C03Coarse); the slice rule of map_overlap expands by the depth, trims on top and is sound for every boundary kind and window-local function, the periodic guard on the expanded slice is necessary (C02o_accept_sound[_nd,_node], C02o_periodic_guard_necessary, Props/C02Overlap). Lowering of other node kinds is covered by the search only; block-layout-sensitive consumers over pushdown targets are searched by harness/props_ext/c02_grid.py.",
+  "Lean 4 soundness theorems for 22 rewrite rules on the expression mini-language, the block-id assignment of blockwise fusion, chunk unification at lowering, the gates of the generic Blockwise slice/take pushdown, the coarse (adjust_chunks) slice pushdown, the slice rule of map_overlap and the axis-permutation rules (122 theorems) + congruence/fixpoint theorems (optimize sound for any rule sequence) + correspondence: every traced real rewrite (before/after objects exported) must be den-equal for the model (ru.equiv), instances of proved rules counted + real-code search (4 phase forms vs NumPy, fused vs lowered blocks, every fired rewrite computed on both sides, rule-directed chains, sliding-window kernel substitution)",
+  "C02_rule_sound_<rule> for slice-slice fusion, identity-slice removal, slice through elemwise/transpose/expand_dims/squeeze/reductions/concatenate, rechunk no-op / rechunk-rechunk / through elemwise, transpose, expand_dims / into a source; C02_step_sound, C02_any_sequence, C02_optimize_sound and C02_optimize_compute (with C01) for every well-formed expression. Extensions audited by the same check: slice through broadcast_to, rechunk through concatenate, rechunk-slice composition (Props/C02Ext); fusion: under WF, Ordered, Accepted (model of _remove_conflicting_exprs) and ValidBlock every member gets the block id reached along every path and the fused task reads exactly what the unfused graph reads (C02_fuse_block_ids, Props/C02Fusion); chunk unification at lowering is well-formed, denotes the pointwise op and computes it (C02l_*, Props/C02Lower). the generic Blockwise slice/take pushdown is sound for label-local block functions whenever its gate fires, each gate is necessary (C02g_push_sound, C02g_gate_necessary_*, Props/C02Gate); the coarse adjust_chunks path keeps exactly the blocks meeting the slice and the rewritten node denotes the slice of the original for every block-to-block function (C02c_accept_sound, C02c_findBlockRange_spec, C02c_operand_axis_gates, Props/C02Coarse; chunks: C03c_*, Props/C03Coarse); the slice rule of map_overlap expands by the depth, trims on top and is sound for every boundary kind and window-local function, the periodic guard on the expanded slice is necessary (C02o_accept_sound[_nd,_node], C02o_periodic_guard_necessary, Props/C02Overlap). Axis permutations (Props/C02Perm, 24): transpose of transpose is the transpose by the composed permutation exactly as the code composes it (the opposite order differs: decided witness), the inverse permutation, the block-key map of the transpose layer, take through transpose uses axes[k] (inverse[k] is wrong: witness), the swapaxes / moveaxis / rollaxis builders have NumPy's meaning, the push through elemwise fires iff every array operand, where= and out= has the output rank and is sound then. Lowering of other node kinds is covered by the search only; block-layout-sensitive consumers over pushdown targets are searched by harness/props_ext/c02_grid.py.",
   TB + "The tie is ru.equiv on exported real rewrites; coverage and measure are evidence only. Known findings: swv-layout-drift, take-through-broadcast, slice-through-generic-blockwise.",
   "DESIGN.md §4 C02")
 claim("C08",
